@@ -100,8 +100,22 @@ def r1_untaken_messages_stay(ctx):
                         srcs = fln.sources(v["l"]) if v else []
                         key = op_place(t["args"][1])
                         ksrc = fln.sources(key["l"]) if key else []
-                        stores.append((bi, [c.local_name(x[1]) for x in srcs if x[0] == "arg"], [c.local_name(x[1]) for x in ksrc if x[0] == "arg"]))
-    ok = any(v == ["msg_idx"] and k == ["receive_idx"] for _b, v, k in stores)
+                        stores.append((bi, [x[1] for x in srcs if x[0] == "arg"], [x[1] for x in ksrc if x[0] == "arg"]))
+    # name-free: the KEY parameter is the one that also labels the held message (first component of the tuple stored into `receiving`); the VALUE
+    # parameter is another integer parameter that is neither that one nor the process id (the key of the process-table lookups)
+    label_params = set()
+    for b2, si, s in c.stmts():
+        if s["k"] == "assign" and s["rv"]["k"] == "agg" and s["rv"].get("kind") == "tuple" and len(s["rv"]["ops"]) == 2:
+            o0, o1 = op_place(s["rv"]["ops"][0]), op_place(s["rv"]["ops"][1])
+            if o0 and o1 and "value::Value" in (c.local_ty(o1["l"]) or ""):
+                label_params |= {x[1] for x in fln.sources(o0["l"]) if x[0] == "arg"}
+    pid_params = set()
+    for b2, t2 in c.calls():
+        if (t2.get("callee") or "").split("::")[-1] in ("remove", "get_mut", "get", "insert", "get_process_mut", "get_process") and len(t2["args"]) > 1 and op_place(t2["args"][1]):
+            cp2 = fl.canon_op(t2["args"][0])
+            if (t2.get("callee") or "").split("::")[-1].startswith("get_process") or (cp2 and fl.mentions_field(cp2, "executor::Executor", "processes")):
+                pid_params |= {x[1] for x in fln.sources(op_place(t2["args"][1])["l"]) if x[0] == "arg"}
+    ok = any(len(v) == 1 and len(k) == 1 and k[0] in label_params and v[0] != k[0] and v[0] not in pid_params for _b, v, k in stores)
     ctx.check(ok, R, c.key + "|cursor-store", "call_receive_function stores cursors[receive_idx] = msg_idx together with the held message",
               "call_receive_function no longer records the index of the message it hands to the filter (the accept path would remove another message): %s" % stores,
               c.loc(0))
